@@ -309,6 +309,53 @@ func c06ChecksigCases(yield func(c06Case), thorough bool) {
 	}
 }
 
+// c06ReturnTailCases: a signature check in a script that goes on, after a top-level OP_RETURN,
+// with 0..4 raw bytes (after genesis these are data that stay part of the script code; before
+// genesis they are parsed as opcodes).
+func c06ReturnTailCases(yield func(c06Case), thorough bool) {
+	k0 := keyOf(0)
+	tails := [][]byte{{}, {0x11}, {0x11, 0x22}, {0x11, 0x22, 0x33}, {0x02, 0x22, 0x33, 0x44}, {0x4c}, {0xac, 0x51}}
+	for ti, tail := range tails {
+		for _, form := range []string{"CHECKSIGVERIFY 1 RETURN", "CHECKSIG RETURN", "1of1 CHECKMULTISIGVERIFY 1 RETURN"} {
+			var lock []byte
+			switch form {
+			case "CHECKSIGVERIFY 1 RETURN":
+				lock = bytesJoin(minimalPush(k0.comp), []byte{0xad, 0x51, 0x6a}, tail)
+			case "CHECKSIG RETURN":
+				lock = bytesJoin(minimalPush(k0.comp), []byte{0xac, 0x6a}, tail)
+			default:
+				lock = bytesJoin([]byte{0x51}, minimalPush(k0.comp), []byte{0x51, 0xaf, 0x51, 0x6a}, tail)
+			}
+			for _, ht := range []uint8{0x41, 0x01, 0xc3, 0x83} {
+				for era := 0; era < 2; era++ {
+					for _, f := range []uint32{0, fForkID, fStrict | fNullFail, fForkID | fStrict | fDER | fLowS | fNullFail | fNullDummy} {
+						if era == 1 {
+							f |= fGenesis
+						}
+						unlockOf := func(sig []byte) []byte {
+							if form[0] == '1' {
+								return pushAll([]byte{}, sig)
+							}
+							return pushAll(sig)
+						}
+						ph := append(bytes.Repeat([]byte{0x01}, 8), ht)
+						base := scriptCase{Unlock: unlockOf(ph), Lock: lock, Flags: f}
+						codes := captureCodes(base)
+						if len(codes) != 1 {
+							continue
+						}
+						rt, amount := base.ctx()
+						forkAlgo := ht&0x40 != 0 && f&fForkID != 0
+						valid := cachedSign(k0, 0, rt, 0, codes[0], amount, ht, forkAlgo, "")
+						yield(c06Case{scriptCase: scriptCase{Unlock: unlockOf(valid), Lock: lock, Flags: f}, Op: form, Sig: "valid", Key: "compressed", HT: ht, Extra: fmt.Sprintf("|return-tail=%d", ti)})
+						yield(c06Case{scriptCase: scriptCase{Unlock: unlockOf(highS(valid)), Lock: lock, Flags: f}, Op: form, Sig: "high-s", Key: "compressed", HT: ht, Extra: fmt.Sprintf("|return-tail=%d", ti)})
+					}
+				}
+			}
+		}
+	}
+}
+
 func c06MultisigCases(yield func(c06Case), thorough bool) {
 	keys := []keyPair{keyOf(0), keyOf(2), keyOf(3)}
 	keyIdx := []int{0, 2, 3}
@@ -458,7 +505,7 @@ func c06MultisigCases(yield func(c06Case), thorough bool) {
 
 func init() {
 	p := register(&Prop{ID: "C06", Level: "exploration",
-		Rule: "exhaustive product with real ECDSA signatures, every case executed in lockstep against the reference model (CHECKSIG/CHECKMULTISIG written after the node's interpreter, certified on the signature vectors of script_tests.json; digests certified on the sighash vectors): CHECKSIG family: 8 locking-script forms (CHECKSIG, NOT, CHECKSIGVERIFY, OP_CODESEPARATOR before the key / before the opcode / unexecuted / later in the script, P2PKH) x 5 key encodings (compressed, uncompressed, hybrid, truncated, empty) x 17 hash types (12 standard, 5 undefined) x 9 signature kinds (valid, over another tx, by another key, over the other digest algorithm, empty, hash-type byte only, high-S, DER-padded, wrong DER length) x ALL 64 subsets of {STRICTENC, DERSIG, LOW_S, NULLDUMMY, NULLFAIL, SIGHASH_FORKID} x both eras x tx shapes (1 in/1 out, no outputs; thorough: 2 inputs); signature-in-script (exact push and substring); for CHECKSIG and P2PKH also with the transaction's checked input already recording ANOTHER spent output (other value and script, as left by FromUTXOs or an earlier Execute): a valid signature, and one made for the recorded value instead of the spent one. CHECKMULTISIG family: every m-of-n with 0<=m<=n<=3, every m-tuple over the slot alphabet {valid by key j for every j, empty, type-only, other tx, high-S, a single byte that occurs inside a public key} (hence every order), dummy {empty, 01}, key mutations, 3 opcode forms, uniform and mixed per-signature hash types, 2/5 hash types, 64 flag subsets x both eras. Oracle: verdict and every stack snapshot equal the reference. distinct_nontrivial = distinct (script pair, flags) executions",
+		Rule: "exhaustive product with real ECDSA signatures, every case executed in lockstep against the reference model (CHECKSIG/CHECKMULTISIG written after the node's interpreter, certified on the signature vectors of script_tests.json; digests certified on the sighash vectors): CHECKSIG family: 8 locking-script forms (CHECKSIG, NOT, CHECKSIGVERIFY, OP_CODESEPARATOR before the key / before the opcode / unexecuted / later in the script, P2PKH) x 5 key encodings (compressed, uncompressed, hybrid, truncated, empty) x 17 hash types (12 standard, 5 undefined) x 9 signature kinds (valid, over another tx, by another key, over the other digest algorithm, empty, hash-type byte only, high-S, DER-padded, wrong DER length) x ALL 64 subsets of {STRICTENC, DERSIG, LOW_S, NULLDUMMY, NULLFAIL, SIGHASH_FORKID} x both eras x tx shapes (1 in/1 out, no outputs; thorough: 2 inputs); signature-in-script (exact push and substring); signature checks in scripts that continue after a top-level OP_RETURN with 0..4 raw bytes (script code with a data tail); for CHECKSIG and P2PKH also with the transaction's checked input already recording ANOTHER spent output (other value and script, as left by FromUTXOs or an earlier Execute): a valid signature, and one made for the recorded value instead of the spent one. CHECKMULTISIG family: every m-of-n with 0<=m<=n<=3, every m-tuple over the slot alphabet {valid by key j for every j, empty, type-only, other tx, high-S, a single byte that occurs inside a public key} (hence every order), dummy {empty, 01}, key mutations, 3 opcode forms, uniform and mixed per-signature hash types, 2/5 hash types, 64 flag subsets x both eras. Oracle: verdict and every stack snapshot equal the reference. distinct_nontrivial = distinct (script pair, flags) executions",
 	})
 	sp := NewSpace(p, "sigops", c06Check)
 	p.Run = func(r *rep.Run, thorough bool) {
@@ -485,6 +532,7 @@ func init() {
 		}
 		s := &Space[c06Case]{P: p, Name: sp.Name, Check: chk}
 		s.Each(r, func(yield func(c06Case)) { c06ChecksigCases(yield, thorough) })
+		s.Each(r, func(yield func(c06Case)) { c06ReturnTailCases(yield, thorough) })
 		n1 := r.Evals()
 		s.Each(r, func(yield func(c06Case)) { c06MultisigCases(yield, thorough) })
 		r.Note("checksig_cases", n1)
